@@ -19,6 +19,22 @@ type vgen struct {
 	encodable map[reflect.Type]bool
 	depth     int
 	budget    int // remaining node budget for the value being generated
+	pending   string // constraint sweep: the next leaf/list generated takes this boundary ("size-lb", "size-ub", "size-below",
+	// "size-above", "val-lb", "val-ub", "val-below", "val-above"); consumed once
+	forceType  reflect.Type // constraint sweep: the struct type whose field forceField is driven
+	forceField int
+	forceMode  string // a pending mode, or "present" / "absent" for an OPTIONAL field
+}
+
+// take consumes the pending sweep mode if it is one of the given ones.
+func (g *vgen) take(modes ...string) string {
+	for _, m := range modes {
+		if g.pending == m {
+			g.pending = ""
+			return m
+		}
+	}
+	return ""
 }
 
 func newVgen(rng *rand.Rand) *vgen {
@@ -128,6 +144,24 @@ func (g *vgen) length(p tags.Params, typical int) (n int, ok bool) {
 	if p.SizeUB != nil {
 		ub = *p.SizeUB
 	}
+	switch g.take("size-lb", "size-ub", "size-below", "size-above") {
+	case "size-lb":
+		return int(lb), true
+	case "size-ub":
+		if ub >= 0 {
+			return int(ub), true
+		}
+	case "size-below":
+		if lb > 0 {
+			g.injected = "size-below-lb"
+			return int(lb - 1), true
+		}
+	case "size-above":
+		if ub >= 0 {
+			g.injected = "size-above-ub"
+			return int(ub + 1), true
+		}
+	}
 	if ub >= 0 && g.inject("size-above-ub") {
 		if p.SizeExt || ub >= 65535 {
 			g.invalid, g.injected = true, "" // extensible: not an error; try elsewhere
@@ -198,6 +232,17 @@ func (g *vgen) fill(v reflect.Value, p tags.Params) {
 		if p.ValueUB != nil {
 			ub = *p.ValueUB
 		}
+		switch g.take("val-lb", "val-ub", "val-above") {
+		case "val-lb":
+			v.SetUint(uint64(lb))
+			return
+		case "val-ub":
+			v.SetUint(uint64(ub))
+			return
+		case "val-above":
+			v.SetUint(uint64(ub + 1))
+			return
+		}
 		if g.inject("enum-above-ub") {
 			v.SetUint(uint64(ub + 1))
 			return
@@ -209,6 +254,20 @@ func (g *vgen) fill(v reflect.Value, p tags.Params) {
 	case reflect.Int, reflect.Int32, reflect.Int64:
 		switch {
 		case p.ValueLB != nil && p.ValueUB != nil:
+			switch g.take("val-lb", "val-ub", "val-below", "val-above") {
+			case "val-lb":
+				v.SetInt(*p.ValueLB)
+				return
+			case "val-ub":
+				v.SetInt(*p.ValueUB)
+				return
+			case "val-below":
+				v.SetInt(*p.ValueLB - 1)
+				return
+			case "val-above":
+				v.SetInt(*p.ValueUB + 1)
+				return
+			}
 			if g.inject("int-above-ub") {
 				if p.ValueExt {
 					// extension of an extensible INTEGER is legal: produce one
@@ -283,8 +342,15 @@ func (g *vgen) fill(v reflect.Value, p tags.Params) {
 		for i := 0; i < t.NumField(); i++ {
 			f := v.Field(i)
 			fp := params[i]
+			forced := g.forceType == t && g.depth == 1 && g.forceField == i
+			if forced && g.forceMode != "present" && g.forceMode != "absent" {
+				g.pending = g.forceMode
+			}
 			if fp.Optional {
 				absent := g.rng.Intn(2) == 0 || !g.canEncode(f.Type()) || g.depth > 14 || g.budget < 0
+				if forced && g.canEncode(f.Type()) {
+					absent = g.forceMode == "absent"
+				}
 				if absent {
 					continue
 				}
